@@ -1,2 +1,4 @@
--- Root of the `SpaModel` library: models (Basic), lemmas, generated tables, property theorems.
+-- Root of the `SpaModel` library: `lake build` (MANIFEST.setup_cmd) builds every property's theorems.
 import SpaModel.Proto
+import SpaModel.Generated.Tables
+import SpaModel.Props.C11
